@@ -478,6 +478,26 @@ pub fn all_subjects(prop: &str, thorough: bool) -> Vec<Subject> {
     if prop == "C16" {
         return crate::subjects_src::source_subjects();
     }
+    if prop == "C14" {
+        // Byte-format sources under back pressure: files larger than the
+        // stream, read out in pieces.
+        return crate::subjects_src::source_subjects()
+            .into_iter()
+            .filter(|s| s.block != "VectorSource" && !s.infinite_source)
+            .collect();
+    }
+    if prop == "C11" {
+        // "all chunkings": the DSP blocks whose one-shot output the dsp engine
+        // judges against the definitions must give the same output however
+        // the input is chunked.
+        return crate::subjects_native::native_subjects("C11")
+            .into_iter()
+            .filter(|s| {
+                ["FirFilter<f32>", "FftFilter", "FftFilterFloat", "Hilbert", "QuadratureDemod", "FastFM", "SinglePoleIirFilter", "FftStream"]
+                    .contains(&s.block.as_str())
+            })
+            .collect();
+    }
     if prop == "C19" {
         let mut ts = tag_placements(5, false);
         ts.truncate(if thorough { 20 } else { 6 });
